@@ -15,6 +15,7 @@ import (
 	"golang.org/x/tools/go/ssa"
 
 	"verif/sa/internal/g4"
+	"verif/sa/internal/e5path"
 	"verif/sa/internal/load"
 	"verif/sa/internal/oblig"
 )
@@ -563,6 +564,20 @@ func EnumTables(p *load.Prog, r *oblig.Report, rule string, lg *g4.Grammar, back
 				ok = true
 			}
 		}
+		// the separator handed to strings.Join / a Sprintf operand, possibly inside a helper that receives the
+		// operator as a (typed) constant: evaluated with the helper's parameters bound to this function's arguments
+		if !ok {
+			if sf := p.Func("transformer", e.fn); sf != nil {
+				for _, ci := range e5path.CallsWithHelpers(sf, 2) {
+					ci := ci
+					for _, arg := range ci.Call.Common().Args {
+						if txt, isConst := constText(ci.Arg(arg), &ci, 0); isConst && strings.Contains(txt, " "+lit+" ") {
+							ok = true
+						}
+					}
+				}
+			}
+		}
 		if ok {
 			r.OK(rule, construct, p.Pos(fd.Pos()), "spelling", "' "+lit+" ' in "+e.fn)
 		} else {
@@ -608,7 +623,7 @@ func Consumers(p *load.Prog, r *oblig.Report, rule string, table []Consumer) {
 				}
 			}
 		}
-		if len(msgParams) > 0 {
+		{
 			for _, hd := range p.WithHelpers(pk, fd, 1)[1:] {
 				passes := false
 				ast.Inspect(fd.Body, func(n ast.Node) bool {
@@ -628,6 +643,10 @@ func Consumers(p *load.Prog, r *oblig.Report, rule string, table []Consumer) {
 					}
 					for _, a := range call.Args {
 						if aid, ok := ast.Unparen(a).(*ast.Ident); ok && msgParams[pk.TypesInfo.Uses[aid]] {
+							passes = true
+						}
+						// or one element of the list the consumer received / iterates (a value of the message type itself)
+						if tv, ok := pk.TypesInfo.Types[a]; ok && strings.HasSuffix(tv.Type.String(), "."+c.Message) && !ast.IsExported(hd.Name.Name) {
 							passes = true
 						}
 					}
@@ -1137,6 +1156,20 @@ func reversedIndex(p *load.Prog, r *oblig.Report, rule string, fn *ssa.Function)
 						}
 					}
 				}
+				if updates == 0 && x.Referrers() != nil {
+					for _, ref := range *x.Referrers() {
+						if cp, ok := ref.(*ssa.Call); ok {
+							c := cp.Common().StaticCallee()
+							if c != nil && c.Origin() != nil {
+								c = c.Origin()
+							}
+							if c != nil && c.Pkg != nil && c.Pkg.Pkg.Path() == "maps" && c.Name() == "Copy" &&
+								len(cp.Common().Args) == 2 && cp.Common().Args[0] == ssa.Value(x) && isRecvIDs(cp.Common().Args[1]) {
+								updates++
+							}
+						}
+					}
+				}
 				if updates == 0 {
 					why = "the new index is never filled"
 				}
@@ -1174,4 +1207,35 @@ func fieldName(fa *ssa.FieldAddr) string {
 		return st.Field(fa.Field).Name()
 	}
 	return ""
+}
+
+// constText evaluates a string-valued SSA value that is a constant after binding helper parameters:
+// constants, conversions of (typed) string constants, concatenations.
+func constText(v ssa.Value, ci *e5path.CallInst, depth int) (string, bool) {
+	if depth > 6 {
+		return "", false
+	}
+	switch x := v.(type) {
+	case *ssa.Const:
+		if x.Value != nil && x.Value.Kind() == constant.String {
+			return constant.StringVal(x.Value), true
+		}
+	case *ssa.Convert:
+		return constText(x.X, ci, depth+1)
+	case *ssa.ChangeType:
+		return constText(x.X, ci, depth+1)
+	case *ssa.Parameter:
+		if a := ci.Arg(x); a != ssa.Value(x) {
+			return constText(a, ci, depth+1)
+		}
+	case *ssa.BinOp:
+		if x.Op == token.ADD {
+			l, ok1 := constText(x.X, ci, depth+1)
+			r, ok2 := constText(x.Y, ci, depth+1)
+			if ok1 && ok2 {
+				return l + r, true
+			}
+		}
+	}
+	return "", false
 }
